@@ -77,7 +77,7 @@ RULE = ("corpus first (every finding's input, every seeded change's shape: seede
 ASSUMPTIONS = [
     "expressions are colourized as pydoctor does it: the node has no expression parent (top level of a default, annotation, decorator, base, constant value)",
     "regex criterion: a displayed pattern is right when CPython's re._parser gives it the same parse tree and flags as the source pattern (so (?P=n) shown as \\1, dropped (?#comments), 'ab|ac' shown as 'a[bc]' pass: same regex, other spelling); the call must keep its flags expression and its * / ** arguments",
-    "re.compile(<constant>) goes through the regex colourizer (_colorize_ast_re, _colorize_re_pattern, _colorize_re_tree over pydoctor's vendored sre_parse36): NOT modelled; the regex stream checks it with the direct oracle only (same call, same flags expression, pattern constant equal or read as the same regex by CPython's re._parser; patterns CPython itself rejects are exempt); the other streams never generate re.compile",
+    "re.compile(<constant>) goes through the regex colourizer (_colorize_ast_re, _colorize_re_pattern, _colorize_re_tree over pydoctor's vendored sre_parse36): NOT modelled; the regex stream checks it with the direct oracle only (same call, same flags expression, pattern constant equal or read as the same regex by CPython's re._parser under the compile flags the flags argument designates - both 0 and re.VERBOSE when it is not a constant; patterns CPython itself rejects are exempt); the other streams never generate re.compile",
     "_storeAttrValue is modelled (storeAttrValue/storeAll); that the builder calls it once per assignment statement of a documented module/class variable, in source order, is what the augassign stream checks",
     "what is delegated to astor outside comparison/conditional expressions over names and operators is an opaque leaf: the model is given astor's text; that the text is self-delimiting is checked only by the direct oracle (CPython re-parse)",
     "float/complex constants: the model is given str(value) and applies the inf -> 1e309 replacement itself; numeric formatting is judged by the oracle through the parsed value",
@@ -1549,31 +1549,54 @@ RE_PATTERNS = [
     r"a|", r"|a", r"(|a)", r"foo|foobar", r"(foo|foobar)", r"^ab$|^ac$", r"ab|ac", r"xa|xb|xc", r"abc|abd|x",
     r" (?!b)x| ", r"ab|a", r"(?:ab|a)c", r"a(b|bc)d", r"ab|cb",
     r"[a\-z]", r"[\w\-.]", r"[+\-*]", r"[a\-]", r"[\-a]", r"[a\-z0-9]", r"[^a\-z]", r"[\]\-a]", r"[\^\-\\]", r"[a\\-z]",
+    # verbose mode: escaped / bracketed whitespace and '#'
+    r"(?x)\#\d+", r"(?x)a[ ]b", r"(?x)a\ b", r"(?x:a\ b)c d", r"hello\ world", r"a\#b", r"a[ ]b", r"a[#]b", "a b", "a # b",
+    r"(?x) \# [ ] \  # c", r"(?ix)a\ b", r"a(?x: b\ c )d", r"(?x)[ #]+",
+    # a group reference followed by a literal digit
+    r"(\d)\1[0]", r"(?P<d>\d)(?P=d)0", r"(a)\1\x31", r"(a)(b)\2[3]", r"(a)\1 0", r"(a)\1[0-9]", r"(a)\1b", r"(a)\1{2}0",
     r"[\\]", r"[\]]", r"[\^]", r"[a\^]", r"[]a]", r"[^]a]", r"[a-z\-]", r"[--a]", r"[+--]", r"[\--a]", r"[\d\-x]", r"a\-b", r"[\w.]+@[\w.]+", r"^\s*(\w+)\s*=\s*(.*?)\s*$", r"\d{1,3}(?:\.\d{1,3}){3}", r"[A-Fa-f0-9]{8}",
     r"(?u)\w", r"(?a)\w", r"(?L)x", r"\u00e9", r"\U0001f600", r"\N{DIGIT ONE}", r"\0", r"\07", r"\101", r"[\0-\x1f]",
     r"[\b]", r"\A\Z\b\B", r"a{2}{3}", r"(?P<x>a)(?(x)b|c)", r"(?#comment)a", r"\'", r"'", r"''", r"\"", "a\nb", "a\\\nb",
 ]
 RE_FORMS = ["re.compile({p})", "re.compile({p}, re.I | re.M)", "re.compile({p}, flags=re.X)", "re.compile(pattern={p})",
             "re.compile(flags=re.S, pattern={p})", "[re.compile({p}), 1]", "f(re.compile({p}))", "re.compile({p}).match",
-            "re.compile({p}, **options)", "re.compile({p}, re.I, **o)", "re.compile({p}, *args)"]
+            "re.compile({p}, **options)", "re.compile({p}, re.I, **o)", "re.compile({p}, *args)",
+            "re.compile({p}, re.VERBOSE)", "re.compile({p}, re.X | re.I)", "re.compile({p}, flags)"]
 
 
-def _re_tree(pat):
-    """CPython's own parse of a pattern: (structure, flags) or the error class"""
+def _re_tree(pat, flags: int = 0):
+    """CPython's own parse of a pattern under the given compile flags: (structure, flags) or the error class"""
     import re._parser as sp
     import warnings
     with warnings.catch_warnings():
         warnings.simplefilter("ignore")
         try:
-            t = sp.parse(pat, 0)
+            t = sp.parse(pat, flags)
             return (repr(t), t.state.flags)
         except Exception as e:
             return "error:" + type(e).__name__
 
 
-def _re_signature(pat) -> str:
+def _re_flag_values(fa: Optional[ast.AST]) -> List[int]:
+    """the compile flags a flags argument can stand for, as far as the READING of the pattern goes: its value
+    when it is a constant expression over `re.<FLAG>`; both `0` and `re.VERBOSE` when it is not known (a
+    variable): the displayed pattern must then mean the same either way"""
+    if fa is None:
+        return [0]
+    try:
+        v = eval(compile(ast.Expression(body=fa), "<flags>", "eval"), {"re": re, "__builtins__": {}})
+        return [int(v)]
+    except Exception:
+        return [0, int(re.VERBOSE)]
+
+
+def _re_signature(pat, verbose_arg: bool = False) -> str:
     """which feature of the source pattern the display lost (coarse)"""
     p = pat.decode("latin1") if isinstance(pat, bytes) else pat
+    if re.search(r"(\\[1-9]|\(\?P=\w+\))(\d|\[\d\]|\\x3\d)", p):
+        return "regex:groupref-glued-to-digit"
+    if re.search(r"\\[ #]|\[[ #]+\]", p) and re.search(r"\(\?[a-zA-Z]*x", p):
+        return "regex:verbose-inline-escapes-dropped"
     if re.search(r"\(\?(?:[aiLmsux]+(?:-[imsx]+)?|-[imsx]+):", p):
         return "regex:scoped-inline-flags-dropped"
     if re.search(r"\[.*\\-", p):
@@ -1608,7 +1631,7 @@ def regex_stream(ctx: Ctx, only: Optional[List[str]] = None, stream: str = "rege
     from pydoctor.epydoc.markup._pyval_repr import colorize_inline_pyval, colorize_pyval
     from pydoctor.node2stan import gettext
     pats: List[Any] = list(RE_PATTERNS)
-    atoms = ["a", "b", ".", r"\d", r"\w", "[ab]", "[^a-c]", r"[a\-c]", r"[\w\-]", r"[\]a]", r"[\\a]", r"[\^]", "(a)", "(?:b)", "(?P<g>c)", "^", "$", r"\b", "|", "*", "+", "?",
+    atoms = ["a", "b", ".", r"\d", r"\w", "[ab]", "[^a-c]", "0", "[1]", r"\ ", r"\#", "[ ]", "#", "(?x)", r"[a\-c]", r"[\w\-]", r"[\]a]", r"[\\a]", r"[\^]", "(a)", "(?:b)", "(?P<g>c)", "^", "$", r"\b", "|", "*", "+", "?",
              "{2}", "{1,3}", "*?", r"\.", r"\\", "'", '"', " ", "é", r"\n", "(?i)", "(?=a)", "(?!b)", r"\1", "-", "]", "x{,2}"]
     for _ in range(100 if ctx.quick else 6000):
         pats.append("".join(ctx.rng.choice(atoms) for _ in range(ctx.rng.randint(1, 6))))
@@ -1619,7 +1642,7 @@ def regex_stream(ctx: Ctx, only: Optional[List[str]] = None, stream: str = "rege
         if pat.isascii():
             variants.append(repr(pat.encode("ascii")))
         for pv in variants:
-            for form in (RE_FORMS if pat in RE_PATTERNS else RE_FORMS[:2]):
+            for form in (RE_FORMS if pat in RE_PATTERNS else [RE_FORMS[0], RE_FORMS[1], RE_FORMS[-3]]):
                 srcs.append(form.format(p=pv))
     if only is not None:
         srcs = list(only)
@@ -1680,15 +1703,25 @@ def regex_stream(ctx: Ctx, only: Optional[List[str]] = None, stream: str = "rege
                             if pa.value == pb.value:
                                 n_eq += 1
                             else:
-                                ta, tb = _re_tree(pa.value), _re_tree(pb.value)
-                                if isinstance(ta, str):
-                                    # the source pattern is not a regex for this interpreter (pydoctor's vendored
-                                    # 3.6 parser is more lenient): nothing to preserve
-                                    ctx.count("regex:source-pattern-invalid-for-cpython-respelled")
-                                elif ta != tb:    # (tb may be an error: the shown pattern is not a regex)
-                                    # which feature of the source pattern was lost?
-                                    sig = _re_signature(pa.value)
-                                    bad = (sig, f"the pattern {pa.value!r} is shown as {pb.value!r}, which CPython's regex parser reads differently")
+                                lost = None
+                                for fv in _re_flag_values(fa):
+                                    ta, tb = _re_tree(pa.value, fv), _re_tree(pb.value, fv)
+                                    if isinstance(ta, str):
+                                        # the source pattern is not a regex for this interpreter (pydoctor's
+                                        # vendored 3.6 parser is more lenient): nothing to preserve
+                                        ctx.count("regex:source-pattern-invalid-for-cpython-respelled")
+                                    elif ta != tb:    # (tb may be an error: the shown pattern is not a regex)
+                                        lost = fv
+                                        break
+                                if lost is not None:
+                                    t0 = _re_tree(pa.value, lost & ~re.VERBOSE)
+                                    if lost & re.VERBOSE and (isinstance(t0, str) or t0 == _re_tree(pb.value, lost & ~re.VERBOSE)):
+                                        # right without re.VERBOSE, wrong with it: the argument was not taken into account
+                                        sig = "regex:verbose-flag-argument-ignored"
+                                    else:
+                                        sig = _re_signature(pa.value)
+                                    bad = (sig, f"the pattern {pa.value!r} is shown as {pb.value!r}, which CPython's regex parser "
+                                                f"reads differently (compile flags {lost})")
                                     break
                                 n_same += 1
                             # neutralise the call for the comparison of the surrounding expression
@@ -1740,7 +1773,10 @@ def corpus_stream(ctx: Ctx) -> None:
                                ("Read | Write", [["Flags & " + q, q]]), ("Read | Write", [[q, "Flags & " + q]]),
                                ("Read | Write", [["-" + q], ["Optional[%s]" % q], [q]])], stream="corpus-sequence")
     # regex findings
-    regex_stream(ctx, only=["re.compile('a', **options)", "re.compile('a', re.I, **o)", "re.compile('[a\\-z]')",
+    regex_stream(ctx, only=["re.compile(r'(?x)\\#\\d+')", "re.compile(r'hello\\ world', re.VERBOSE)", "re.compile(r'(?x)a[ ]b')",
+                            "re.compile('a b', re.X)", "re.compile(r'a\\ b', flags)",
+                            "re.compile(r'(?P<d>\\d)(?P=d)0')", "re.compile(r'(\\d)\\1[0]')",
+                            "re.compile('a', **options)", "re.compile('a', re.I, **o)", "re.compile('[a\\-z]')",
                             "re.compile('[\\w\\-.]')", "re.compile('[+\\-*]')",
                             # same regex, different spelling: these must PASS (criterion: CPython's parse tree)
                             "re.compile('(?P<n>x)(?P=n)')", "re.compile('a(?#comment)b')", "re.compile('ab|ac')",
